@@ -169,7 +169,8 @@ func encryptSM2EC(c *sm2Curve, pub *ecdsa.PublicKey, random io.Reader, msg []byt
 		if err != nil {
 			return nil, err
 		}
-		C2, err := Q.ScalarMult(Q, k.Bytes(c.N))
+		// [k]Q goes into a new point: Q must stay the public key for a retry (A5)
+		C2, err := c.newPoint().ScalarMult(Q, k.Bytes(c.N))
 		if err != nil {
 			return nil, err
 		}
